@@ -21,7 +21,10 @@ Operations
         `if pkid in self._keys`, it does not raise).
 
 Invariant I(keyring), with `objs` = loaded primary objects (model) and `allk` = objs plus their subkey objects
-  (a) keyring.fingerprints() == {fingerprints of allk}; the keyhalf/keytype filters partition consistently
+  (a) keyring.fingerprints() == {fingerprints of allk}; fingerprints(keyhalf, keytype) for the four public/private x
+      primary/sub combinations equal the matching subsets (PGPy recomputes every fingerprint on every call, so the four
+      filtered calls are skipped for enumerated histories of exactly the maximal length; they are made for every
+      shorter history and for every step of the random walks)
   (b) for every k in allk and every identifier it carries (40-hex fingerprint, fingerprint in groups of 4 separated by
       one space, fingerprint in the pretty form with the double space, 16-hex key id, 8-hex short id, and for primaries
       every uid name / comment / e-mail): `identifier in keyring` and `with keyring.key(identifier) as got` yields an
@@ -112,14 +115,14 @@ def universe():
         mine = [str(k.fingerprint)] + [str(s.fingerprint) for s in k.subkeys.values()]
         assert sorted(f) == sorted(mine), 'independent fingerprints differ from PGPy: %r %r' % (f, mine)
         u.fprs.append(mine)
-    u.uidparts = [[('Shared', 'c1', 'a@x')], [('Shared', 'c1', 'a@x')], [('Shared', 'c2', 'a@x')],
-                  [('Carol', 'c1', 'c@x')], [('Dave', '', ''), ('Dave D', 'c1', 'a@x')]]
+    u.uidparts = [(('Shared', 'c1', 'a@x'),), (('Shared', 'c1', 'a@x'),), (('Shared', 'c2', 'a@x'),),
+                  (('Carol', 'c1', 'c@x'),), (('Dave', '', ''), ('Dave D', 'c1', 'a@x'))]
     for k, parts in zip(u.keys, u.uidparts):
         assert sorted((x.name, x.comment, x.email) for x in k.userids) == sorted(parts), 'uid parts'
     u.all_idents = set()
     for i in range(NK):
         for j, f in enumerate(u.fprs[i]):
-            u.all_idents |= idents_of(f, u.uidparts[i] if j == 0 else [])
+            u.all_idents |= idents_of(f, u.uidparts[i] if j == 0 else ())
     # selection objects: (name, object, set of fingerprints that issued / can decrypt it)
     fA, fB, fC, fD = u.fprs[0][0], u.fprs[2][0], u.fprs[3], u.fprs[4][0]
     u.select = []
@@ -153,10 +156,30 @@ def pretty(f):
     return ' '.join(f[i:i + 4] for i in range(0, 20, 4)) + '  ' + ' '.join(f[i:i + 4] for i in range(20, 40, 4))
 
 
+_IDENTS = {}
+
+
 def idents_of(fpr, uidparts):
-    out = {fpr, spaced4(fpr), pretty(fpr), fpr[-16:], fpr[-8:]}
-    for parts in uidparts:
-        out |= {x for x in parts if x}
+    key = (fpr, tuple(uidparts))
+    if key not in _IDENTS:
+        out = {fpr, spaced4(fpr), pretty(fpr), fpr[-16:], fpr[-8:]}
+        for parts in uidparts:
+            out |= {x for x in parts if x}
+        _IDENTS[key] = frozenset(out)
+    return _IDENTS[key]
+
+
+_SUBFPR = {}          # id(subkey object) -> (object, fingerprint); the object is kept so that the id stays unique
+
+
+def sub_fprs(o):
+    """[(subkey object, fingerprint)] of a primary key object (PGPy recomputes a fingerprint on every access)"""
+    out = []
+    for s in o.subkeys.values():
+        e = _SUBFPR.get(id(s))
+        if e is None or e[0] is not s:
+            e = _SUBFPR[id(s)] = (s, str(s.fingerprint))
+        out.append(e)
     return out
 
 
@@ -220,7 +243,7 @@ def apply_op(kr, model, pos, op, probs):
             kr.unload(u.keys[i])          # not loaded: must be a silent no-op, the full invariant is checked after
 
 
-def check(kr, model):
+def check(kr, model, filters=True):
     """the class invariant; returns a list of problem strings (empty = holds)"""
     u = universe()
     probs = []
@@ -228,11 +251,11 @@ def check(kr, model):
     allk = []                         # (object, fingerprint, uid parts)
     for i, o in objs:
         allk.append((o, u.fprs[i][0], u.uidparts[i]))
-        subs = list(o.subkeys.values())
-        if sorted(str(s.fingerprint) for s in subs) != sorted(u.fprs[i][1:]):
+        subs = sub_fprs(o)
+        if sorted(f for _, f in subs) != sorted(u.fprs[i][1:]):
             probs.append('subkeys of a loaded %s differ from the universe' % NAMES[i])
-        for s in subs:
-            allk.append((s, str(s.fingerprint), []))
+        for s, f in subs:
+            allk.append((s, f, ()))
     ids = {id(o) for o, _, _ in allk}
     expfp = {f for _, f, _ in allk}
     # (a)
@@ -240,7 +263,7 @@ def check(kr, model):
     if got != expfp:
         probs.append('(a) fingerprints() = %d values, expected %d; missing %r, extra %r'
                      % (len(got), len(expfp), sorted(expfp - got), sorted(got - expfp)))
-    for half, pub in (('public', True), ('private', False)):
+    for half, pub in (('public', True), ('private', False)) if filters else ():
         for typ, prim in (('primary', True), ('sub', False)):
             e = {f for o, f, _ in allk if o.is_public == pub and o.is_primary == prim}
             g = {str(f) for f in kr.fingerprints(keyhalf=half, keytype=typ)}
@@ -345,6 +368,7 @@ class Acc(object):
         self.nfail = 0
         self.maxdepth = 0
         self.maxobjs = 0
+        self.leaf = None      # histories of exactly this length skip the keyhalf/keytype filter part of (a)
 
 
 def dfs(hist, snap, model, maxlen, acc):
@@ -362,7 +386,7 @@ def step(hist, kr, model, acc):
     probs = []
     try:
         apply_op(kr, model, len(hist) - 1, hist[-1], probs)
-        probs += check(kr, model)
+        probs += check(kr, model, filters=len(hist) != acc.leaf)
     except Exception as ex:
         probs.append('exception during %s: %s: %s' % (hist[-1], type(ex).__name__, str(ex)[:80]))
     acc.cases += 1
@@ -418,6 +442,7 @@ def task_prefix(args):
     universe()
     NOTES.clear()
     acc = Acc()
+    acc.leaf = maxlen
     kr = pgpy.PGPKeyring()
     model = Model()
     h1 = (op1,)
@@ -481,11 +506,12 @@ def component(tier='quick', seed=0, known=()):
     maxdepth = maxobjs = 0
     notes = collections.Counter()
     with ctx.Pool(16) as pool:
-        res_p = pool.map(task_prefix, tasks, chunksize=1)
-        res_w = pool.map(task_walk, [(s, wlen) for s in wseeds], chunksize=1)
         # cross-check of the snapshot mechanism on a seeded sample of histories
         xs = [tuple(rng.choice(OPS) for _ in range(rng.randint(2, 8))) for _ in range(160)]
-        res_x = pool.map(task_crosscheck, [xs[i::16] for i in range(16)], chunksize=1)
+        a_w = pool.map_async(task_walk, [(s, wlen) for s in wseeds], chunksize=1)
+        a_p = pool.map_async(task_prefix, tasks, chunksize=1)
+        a_x = pool.map_async(task_crosscheck, [xs[i::16] for i in range(16)], chunksize=1)
+        res_p, res_w, res_x = a_p.get(), a_w.get(), a_x.get()
     enum_cases = 0
     for c, nt, nf, fl, md, mo, nts in res_p:
         cases += c; enum_cases += c; nontriv += nt; nfail += nf; fails += fl
